@@ -340,6 +340,17 @@ fn run_cell(kind: &str, p: &str, ks: &Keys, seed: u64) -> Result<Vec<(String, &'
                     }
                 }
             }
+            // the same certification as the component's only signature: the composite check under that key
+            if kind == "certification" {
+                let su = pgp::types::SignedUser::new(if changed { other_uid.clone() } else { uid.clone() }, vec![sig2.clone()]);
+                out.push(("SignedUser::verify_bindings".into(), cls(su.verify_bindings(&vkey_primary))));
+                if p == "key_other" {
+                    // a user id attached to ANOTHER certificate with nothing but this (foreign) certification
+                    let mut cert = ks.other.clone();
+                    cert.details.users.push(pgp::types::SignedUser::new(uid.clone(), vec![sig2.clone()]));
+                    out.push(("SignedPublicKey::verify_bindings (user id certified only by a foreign key)".into(), cls(cert.verify_bindings())));
+                }
+            }
             // third-party certification (signer != certified key), with and without issuer subpackets: without them only the
             // key/signature version alignment and the cryptography stand between a twin key and acceptance
             if kind == "certification" && matches!(p, "none" | "key_other" | "key_same_material_other_version" | "key_same_material_other_identity") {
@@ -477,6 +488,46 @@ pub fn run(cases_path: &str, out_path: &str, tier: &str, seed: u64) {
             let ok = match &r { Out::Ok(accepted) => !constrained || !accepted, _ => false };
             sink.put(rec("c02.bitflip", json!({"key": label, "what": "signature packet", "bit": bit, "octet": pos, "constrained": constrained}), ok, "soundness", json!({"outcome": r.class(), "accepted": matches!(r, Out::Ok(true))})));
         });
+    }
+    // content one octet longer or shorter, for contents whose length sits on the verifier's internal edges (512-octet windows of the text
+    // canonicaliser, 8 KiB buffers): every entry point must still refuse, whatever the last octet is
+    for (label, _v6, ks) in sets.iter().filter(|s| s.0.starts_with("ed25519")) {
+        let lens: Vec<usize> = if thorough { vec![511, 512, 513, 1023, 1024, 1025, 1536, 8191, 8192, 8193] } else { vec![511, 512, 1024, 8192] };
+        for l in lens {
+            for tail in [b'a', b'\r', b'\n'] {
+                for kind in ["text", "binary"] {
+                    let mut content: Vec<u8> = (0..l).map(|i| if i % 61 == 60 { b'\n' } else { b'a' + (i % 23) as u8 }).collect();
+                    content[l - 1] = tail;
+                    let typ = if kind == "text" { SignatureType::Text } else { SignatureType::Binary };
+                    let sig = match mk_sig_cfg(&ks.sec, typ, seed).and_then(|c| c.sign(&ks.sec.primary_key, &Password::empty(), &content[..])) {
+                        Ok(s) => s,
+                        Err(e) => { sink.put(rec("c02.length_edges", json!({"key": label, "len": l}), false, "soundness", json!({"detail": e.to_string()}))); continue; }
+                    };
+                    let mut variants: Vec<(&str, Vec<u8>)> = vec![("same", content.clone()), ("truncated_by_one", content[..l - 1].to_vec())];
+                    for (n, ext) in [("extended_cr", &b"\r"[..]), ("extended_lf", &b"\n"[..]), ("extended_letter", &b"x"[..]), ("extended_crlf", &b"\r\n"[..])] {
+                        let mut d = content.clone();
+                        d.extend_from_slice(ext);
+                        variants.push((n, d));
+                    }
+                    for (vn, d) in variants {
+                        nontrivial.fetch_add(1, std::sync::atomic::Ordering::Relaxed);
+                        let want = if vn == "same" { "accept" } else { "reject" };
+                        let r = guard(|| -> Result<Vec<(&'static str, &'static str)>, String> {
+                            let mut got = vec![("Signature::verify", cls(sig.verify(&ks.pubk.primary_key, &d[..]))), ("DetachedSignature::verify", cls(DetachedSignature::new(sig.clone()).verify(&ks.pubk.primary_key, &d)))];
+                            // the streaming verifier: the signature in front of a literal packet
+                            let mut msg = Packet::from(sig.clone()).to_bytes().map_err(|e| e.to_string())?;
+                            let lb = literal_body(b"", &d);
+                            msg.extend(frame(true, 11, &[Chunk::Fixed(lb.len())], &lb, lb.len(), false));
+                            let rr = (|| -> pgp::errors::Result<()> { let mut m = Message::from_bytes(&msg[..])?; let mut o = Vec::new(); m.read_to_end(&mut o)?; m.verify(&ks.pubk.primary_key).map(|_| ()) })();
+                            got.push(("Message::verify(prefix-signed)", cls(rr)));
+                            Ok(got)
+                        });
+                        let ok = matches!(&r, Out::Ok(g) if g.iter().all(|(_, c)| *c == want));
+                        sink.put(rec("c02.length_edges", json!({"key": label, "kind": kind, "len": l, "last_octet": tail, "variant": vn, "expect": want}), ok, "soundness", json!({"outcome": r.class(), "got": match &r { Out::Ok(g) => json!(g), o => json!(o.detail()) }})));
+                    }
+                }
+            }
+        }
     }
     sink.finish(json!({"cells": cases.len(), "nontrivial": nontrivial.load(std::sync::atomic::Ordering::Relaxed)}));
 }
